@@ -208,6 +208,15 @@ def execute_confine(case):
         a_workers = w.live('A')
         b_workers = w.live('B')
         dead = []
+        in_flight = False
+        if case["state"] == 'kill-in-flight' and a_workers and stub:
+            # one worker of A is being terminated and sits in its grace
+            # period (it ignores the stop signal): still an active worker
+            w.request('kill', {"name": "A", "pid": a_workers[0],
+                               "graceful_timeout": 30})
+            w.run_idle()
+            in_flight = True
+            classes.add('termination-in-flight')
         if case["state"] == 'one-dead' and a_workers:
             k.external_death(a_workers[0], ['exit', 0])
             w.full_check()
@@ -314,7 +323,10 @@ def execute_confine(case):
             req = w.request(cmd, props)
             # kill() calls that succeeded (ESRCH attempts are not sends)
             sync = [e for e in k.signal_log[n0:] if e["state"] != 'gone']
-            w.drain()
+            if in_flight:
+                w.run_idle()      # (do not run the grace period out)
+            else:
+                w.drain()
             allsig = k.signal_log[n0:]
             rep = req.reply() or {}
             # (1) confinement
@@ -480,7 +492,8 @@ def _confine_strategy():
         "recursive": st.sampled_from([None, None, True, False])})
     return st.fixed_dictionaries({
         "requests": st.lists(req, min_size=1, max_size=3),
-        "state": st.sampled_from(['active', 'active', 'A-stopped',
+        "state": st.sampled_from(['active', 'active', 'kill-in-flight',
+                                  'A-stopped',
                                   'one-dead']),
         "stubborn": st.booleans(),
         "stop_children": st.booleans()})
